@@ -186,18 +186,25 @@ func c12Diagnostics(c *Ctx, ns *numberScanner) {
 		if !ok {
 			return
 		}
-		lc, ok := bo.X.(*ssa.Call)
-		if !ok || !isBuiltinCall(lc, "len") {
+		var subject ssa.Value
+		isEmptyTest := false
+		if lc, ok := bo.X.(*ssa.Call); ok && isBuiltinCall(lc, "len") {
+			if z, isZ := constIntArg(bo.Y); isZ && z == 0 {
+				subject, isEmptyTest = lc.Call.Args[0], true
+			}
+		} else if k, ok := bo.Y.(*ssa.Const); ok && k.Value != nil && k.Value.Kind() == constant.String && constant.StringVal(k.Value) == "" {
+			subject, isEmptyTest = bo.X, true // fragment == ""
+		}
+		if !isEmptyTest {
 			return
 		}
 		fromFrag := false
-		for _, rt := range plainOrigins.Roots(lc.Call.Args[0]) {
+		for _, rt := range plainOrigins.Roots(subject) {
 			if rt.Kind == "call" && rt.Fn == ns.Frag {
 				fromFrag = true
 			}
 		}
-		z, isZ := constIntArg(bo.Y)
-		if !fromFrag || !isZ || z != 0 {
+		if !fromFrag {
 			return
 		}
 		emptyEdge := -1
@@ -696,7 +703,7 @@ func c15RangeSet(c *Ctx, ro *ParserRoles) {
 		missing := pathExists(s.Fn, s.Alloc, isReturn, done, nil)
 		c.R.Check(rule, cons, c.P.InstrPos(s.Alloc), !missing, "there is a path from this allocation to the return on which the node's source range is not set (both ends)")
 	}
-	c.R.Floor(rule, 12)
+	c.R.Floor(rule, 8)
 }
 
 // setsBothEnds: f sets Pos and End of one of its parameters on every path.
@@ -788,7 +795,7 @@ func c15StartBeforeConsume(c *Ctx, ro *ParserRoles) {
 			c.R.Check(rule, cons, c.P.InstrPos(in), good, "a node's start must be taken before its first token is consumed, or from its first child; "+why)
 		})
 	}
-	c.R.Floor(rule, 10)
+	c.R.Floor(rule, 6)
 }
 
 // returnsStartPos: f returns the scanner's start-of-trivia position.
